@@ -247,7 +247,7 @@ def check_F4(ctx, facts, cfg):
         good = len(th) == 1 and len(cbr) == 1
         if good:
             re_ = ResultEdges(b, flow, th[0][0])
-            good = re_.inspected and any(b.edge_dominates(e, cbr[0][0]) for e in re_.err) and not re_.ok_dominates(cbr[0][0])
+            good = re_.inspected and re_.err_dominates(cbr[0][0]) and not re_.ok_dominates(cbr[0][0])
         ctx.ob('C12.F4', cfg + '|server-error-to-status-frame', bool(good), site(b),
                'handler Err(status) is answered with create_bad_request(&status) on the error edge only' if good else 'handler errors are not turned into a status frame')
     cb = facts.body('datacake_rpc::net::server::create_bad_request')
